@@ -66,9 +66,9 @@ Proof. exact np_unwrap. Qed.
 Print Assumptions C09_no_panic_unwrap.
 
 (* every request helper and token-level function at once: neither panic nor wedge *)
-Theorem C09_helpers_return : forall sites c e start replies,
+Theorem C09_helpers_return : forall c e start replies,
   helper_or_function c = true ->
-  mem CPanic (run_comp sites c e start replies) = false /\ mem CBlocked (run_comp sites c e start replies) = false.
+  mem CPanic (run_comp c e start replies) = false /\ mem CBlocked (run_comp c e start replies) = false.
 Proof. exact helpers_safe. Qed.
 Print Assumptions C09_helpers_return.
 
@@ -94,69 +94,62 @@ Theorem C09_no_panic_blocklist : forall start r, mem CPanic (blocklist_handle st
 Proof. exact np_blocklist. Qed.
 Print Assumptions C09_no_panic_blocklist.
 
-(* receipts.Handler.HandleMessage (sources owned by C06): safe exactly when the
-   inventory no longer lists the unguarded nil start element; with it, a message
-   whose first child is character data panics. *)
-Theorem C09_no_panic_receipts_partial : forall sites e start rs,
-  receipts_unguarded sites = false ->
-  mem CPanic (run_comp sites HReceipts e start rs) = false /\ mem CBlocked (run_comp sites HReceipts e start rs) = false.
-Proof. exact np_receipts_partial. Qed.
-Print Assumptions C09_no_panic_receipts_partial.
+(* receipts.Handler.HandleMessage (repaired: children that are not elements are
+   skipped; the receipt is signalled on a channel that has room for it). *)
+Theorem C09_no_panic_receipts : forall r, mem CPanic (receipts_handle r) = false /\ mem CBlocked (receipts_handle r) = false.
+Proof. exact np_receipts. Qed.
+Print Assumptions C09_no_panic_receipts.
 
-Theorem C09_no_panic_receipts_refuted : forall sites e start,
-  receipts_unguarded sites = true -> exists r, mem CPanic (run_comp sites HReceipts e start [r]) = true.
-Proof. exact np_receipts_refuted. Qed.
-Print Assumptions C09_no_panic_receipts_refuted.
-
-(* ibb.Handler.HandleIQ (sources owned by C15): no panic before the decoder; an
-   accepted <open/> parks only when nobody accepts from the listener. *)
-Theorem C09_no_wedge_ibb_partial : forall sites e start rs,
-  mem CPanic (run_comp sites HIbbIQ e start rs) = false /\
-  (e_ready e = true -> mem CBlocked (run_comp sites HIbbIQ e start rs) = false).
+(* ibb.Handler.HandleIQ (sources owned by C15/C06): no panic before the decoder;
+   an accepted <open/> parks only while nobody accepts from the listener. *)
+Theorem C09_no_wedge_ibb_partial : forall e start rs,
+  mem CPanic (run_comp HIbbIQ e start rs) = false /\
+  (e_ready e = true -> mem CBlocked (run_comp HIbbIQ e start rs) = false).
 Proof. exact nw_ibb_partial. Qed.
 Print Assumptions C09_no_wedge_ibb_partial.
 
 (* ---- all components ---- *)
 
-(* The unconditional claims are false of the faithful model ... *)
-Theorem C09_no_panic_refuted : ~ no_panic_statement.
-Proof. exact no_panic_statement_refuted. Qed.
-Print Assumptions C09_no_panic_refuted.
+(* No component panics: for every component, environment, start element and
+   readers (every token list, either way for a reader to end, every script of
+   replies). *)
+Theorem C09_no_panic : forall c e start rs, mem CPanic (run_comp c e start rs) = false.
+Proof. exact run_comp_no_panic. Qed.
+Print Assumptions C09_no_panic.
 
+(* The unconditional no-wedge claim is false of the faithful model: a hand-over
+   to a partner that never shows up parks ... *)
 Theorem C09_no_wedge_refuted : ~ no_wedge_statement.
 Proof. exact no_wedge_statement_refuted. Qed.
 Print Assumptions C09_no_wedge_refuted.
 
-(* ... and hold under exactly these conditions: no component whose sources
-   were repaired for this property panics, whatever the inventory, environment
-   and input; *)
-Theorem C09_no_panic_partial : forall sites c e start rs,
-  repaired c = true -> mem CPanic (run_comp sites c e start rs) = false.
-Proof. exact run_comp_no_panic. Qed.
-Print Assumptions C09_no_panic_partial.
-
-(* a component parks only in a hand-over whose partner is absent (the history
-   iterator, the ibb listener); *)
-Theorem C09_no_wedge_partial : forall sites c e start rs,
-  mem CBlocked (run_comp sites c e start rs) = true -> e_ready e = false /\ (c = HHistory \/ c = HIbbIQ).
+(* ... and that is the only way: a component parks only in a hand-over whose
+   partner is absent (the history iterator, the ibb listener); *)
+Theorem C09_no_wedge_partial : forall c e start rs,
+  mem CBlocked (run_comp c e start rs) = true -> e_ready e = false /\ (c = HHistory \/ c = HIbbIQ).
 Proof. exact no_wedge_partial. Qed.
 Print Assumptions C09_no_wedge_partial.
 
-(* and under its condition every component returns. *)
-Theorem C09_every_component_returns : forall sites c e start rs,
-  comp_cond sites c e = true ->
-  mem CPanic (run_comp sites c e start rs) = false /\ mem CBlocked (run_comp sites c e start rs) = false.
+(* under its condition every component returns. *)
+Theorem C09_every_component_returns : forall c e start rs,
+  comp_cond c e = true ->
+  mem CPanic (run_comp c e start rs) = false /\ mem CBlocked (run_comp c e start rs) = false.
 Proof. exact run_comp_safe. Qed.
 Print Assumptions C09_every_component_returns.
 
 (* ---- Serve ---- *)
 
 (* For every script of top-level elements, whatever handlers each one reaches
-   (any routing), if every invocation meets its component's condition then Serve
-   returns — with nil at the end of input or with the error it reported. *)
-Theorem C09_serve_returns_at_end_of_input : forall sites script,
-  (forall el i, In el script -> In i el -> inv_cond sites i = true) ->
-  forall o, In o (serve_may sites script) -> o = Returned.
+   (any routing) and whatever their environments, Serve does not panic; *)
+Theorem C09_serve_never_panics : forall script, ~ In Panicked (serve_may script).
+Proof. exact serve_never_panics. Qed.
+Print Assumptions C09_serve_never_panics.
+
+(* and if every invocation meets its component's condition Serve returns — with
+   nil at the end of input or with the error it reported. *)
+Theorem C09_serve_returns_at_end_of_input : forall script,
+  (forall el i, In el script -> In i el -> inv_cond i = true) ->
+  forall o, In o (serve_may script) -> o = Returned.
 Proof. exact serve_returns. Qed.
 Print Assumptions C09_serve_returns_at_end_of_input.
 
@@ -176,9 +169,18 @@ Theorem C09_sites_covered_exactly : forallb covered generated_sites = true.
 Proof. exact sites_all_covered. Qed.
 Print Assumptions C09_sites_covered_exactly.
 
-(* in the repaired files no unchecked assertion, Must call, unguarded nil start
-   element or bare channel send is left *)
+(* in the repaired files every operation of a dangerous kind (unchecked
+   assertion, Must call, unguarded nil start element, bare channel send) is
+   listed with its justification; there are exactly two: receipts.SendMessage
+   asserts on a token supplied by the calling application, and the receipt
+   handler's send goes to a channel that has room for it *)
 Theorem C09_owned_sites_clean :
-  forallb (fun s => negb (owned s && dangerous_kind (s_kind s))) generated_sites = true.
+  forallb (fun s => negb (owned s && dangerous_kind (s_kind s)) || justified s) generated_sites = true.
 Proof. exact owned_sites_clean. Qed.
 Print Assumptions C09_owned_sites_clean.
+
+Theorem C09_owned_dangerous_sites :
+  map (fun s => (s_func s, s_kind s)) (filter (fun s => owned s && dangerous_kind (s_kind s)) generated_sites)
+  = [(str "Handler.HandleMessage", KSend); (str "Handler.SendMessage", KAssert)].
+Proof. exact owned_dangerous_sites. Qed.
+Print Assumptions C09_owned_dangerous_sites.
